@@ -15,8 +15,8 @@ LEAN = ["Ymq.Props.C19"]
 AUDIT = "Ymq.Audit.C19"
 THEOREMS = ["Ymq.C19." + t for t in (
     "crt_symmetric crt_sparse_symmetric perm_sign snf_ops_unimodular_partial snf_diag").split()]
-HYPOTHESES = ["inv_mod64_spec (theorems crt_symmetric, crt_sparse_symmetric): arith::inv_mod64(a, p) returns Some(i) with i < p and "
-              "a*i = 1 (mod p) whenever gcd(a, p) = 1 (property C08)"]
+HYPOTHESES = ["inv_mod64_spec = Ymq.IntMat.InvSpec (theorems crt_symmetric, crt_sparse_symmetric): arith::inv_mod64(a, p) returns Some(i) with "
+              "i < p and a*i = 1 (mod p) whenever p > 1 and gcd(a, p) = 1 (property C08); the driver instantiates it with the C08 model invMod64"]
 PROFILES = ["release", "chk"]
 TIMEOUT = 30.0
 W = 1 << 64
@@ -1284,6 +1284,11 @@ def oracle(case, ans):
         return None if ans == str(h) else f"index {ans} != {h}"
     if op == "im_lattice_index1":
         col = unlst(a[0])
+        if not col:
+            lo, hi = Fraction(int(a[1]), int(a[2])), Fraction(int(a[3]), int(a[4]))
+            prec = abs(hi - lo)
+            inside = max(Fraction(9, 10) * lo, lo - 3 * prec) <= 1 <= min(Fraction(11, 10) * hi, hi + 3 * prec)
+            return None if ans == ("1" if inside else "panic") else f"empty matrix: got {ans}, 1 inside the window: {inside}"
         if col and not window_ok(int(a[1]), int(a[3]), int(a[2])):
             return None if ans == "panic" else f"window wider than the routine accepts must be refused, got {ans}"
         h = 0
@@ -1589,6 +1594,19 @@ def finding_key(case, ans, profile):
         rows = dec_sparse(case.args[0])
         if not rows or not rows[0] or not any(rows):
             return "sparse-det-degenerate-sequence-panic"
+    if op == "im_ker_p256" and ans == "panic":
+        # Berlekamp-Massey on the sequence [a, 0, 0, ...] (e.g. the fixed start vector is itself a kernel vector)
+        rows, p = dec_sparse(case.args[0]), int(case.args[1])
+        x, y, v = 0, 1, []
+        for _ in range(len(rows)):
+            x, y = y, (x + y) % 65537
+            v.append(y)
+        tail = []
+        for _ in range(2 * len(rows) - 1):
+            v = [sum(e * v[j] for j, e in r) % p for r in rows]
+            tail.append(v[0])
+        if not any(tail):
+            return "sparse-det-degenerate-sequence-panic"
     if op == "snf_reduce" and ans == "panic":
         return "snf-reduce-refusal"
     if op == "im_snf" and ans.startswith("refused-reduce"):
@@ -1631,12 +1649,25 @@ UNMODELLED = [
     "the CRT theorems); num_integer::Integer::gcd on i128/I4096 is modelled by its value; bnum I256/I4096/U256 operators as Int arithmetic "
     "with range checks",
 ]
-CLAIM = ("Lean theorems about executable models of the CRT reconstruction (symmetric lift), of the permutation-sign loop and of the "
-         "Smith-form operations; the models (incl. the Montgomery-form echelon builder, det_matz, CRTDetBuilder, the lattice-index candidate "
-         "selection and the whole SmithNormalForm reduction) are tied to the code by differential runs in both build profiles; a Python "
-         "exact-integer oracle (Bareiss determinant, Smith form modulo the determinant, gcd of minors) judges every implementation answer: "
-         "determinants with sign, dense/sparse agreement, lattice index inside the bracket, diagonal presentation with product = index and "
-         "the right isomorphism class.")
-LEVEL_NOTE = ("Partial by design: floating-point estimate windows of compute_lattice_index and the Wiedemann/Berlekamp-Massey code of "
-              "intsparse.rs are tied by K/O only. Trusted: Lean kernel, hand-written models (sampled correspondence), Python integers.")
+CLAIM = ("Lean theorems, for all inputs, about executable models of intdense.rs: crt_symmetric / crt_sparse_symmetric (both CRT routines return the "
+         "integer d, with its sign, whenever -P < 2d <= P, the moduli are pairwise coprime and the I4096 accumulator cannot overflow), perm_sign (the "
+         "swap count of the cycle walk in GFpEchelonBuilder::det has the parity of the permutation, Equiv.Perm.sign), snf_ops_unimodular_partial "
+         "(normalize, submul_n, eliminate, colsub, colswap act on the relation module (Z/h)^n-rowspace by invertible Z/h-linear maps: row operations keep "
+         "it, column operations map it and q by the same automorphism; i128 path 0 < h < 2^63), snf_diag (a state returned by reduce is diagonal and "
+         "its diagonal multiplies to h). The models (also of the Montgomery-form echelon builder, det_matz, CRTDetBuilder with its shared echelons, the "
+         "lattice-index candidate selection and the whole SmithNormalForm reduction incl. the I256 path) are tied to the code by differential runs in both "
+         "build profiles; a Python exact-integer oracle (Bareiss determinant, diagonalisation modulo the determinant, gcd of minors) judges every "
+         "implementation answer: determinants with sign, dense/sparse agreement, lattice index inside the bracket, diagonal presentation with product = "
+         "index and the isomorphism class of the quotient.")
+LEVEL_NOTE = ("Partial by design: the floating-point estimate windows of compute_lattice_index (GramBuilder row filter, log2 estimates) and the "
+              "Wiedemann/Berlekamp-Massey code of intsparse.rs have no Lean model (oracle only); snf_ops_unimodular is proved as _partial for the i128 "
+              "arithmetic path (h < 2^63, one source row): the I256 path and the 8-row block of eliminate_block need the correctness of the reciprocal "
+              "reduction modh256, which is compared with the code and oracle-checked but not proved; echelon_det (determinant mod p = sign * product of "
+              "pivots for GFpEchelonBuilder::add/det) and the composition of the operation theorems over the loops of reduce_rows/reduce_cols are not "
+              "proved (the echelon builder and the reduce loops are covered by K and by the oracle only). Integer determinants are not invariants of the "
+              "Smith-form operations because every step reduces modulo h; the proved invariant is the relation module modulo h. Five algorithmic "
+              "limitations of the code are listed as known findings (refusals and false zeros, see known_findings.json); 9 defects were repaired by "
+              "fix: commits and the models follow the repaired code. Trusted: Lean kernel (+propext, Classical.choice, Quot.sound), the hand-written "
+              "models' correspondence to the Rust code (sampled in both profiles, not proved), Python integers (and IEEE doubles for the caller-side Gram "
+              "estimate of im_det_gram) in the oracle.")
 TECHNIQUE = "Lean 4 proof about a hand model + differential correspondence check + spec oracle"
